@@ -38,6 +38,17 @@ impl<K, V> BTreeMap<K, V> {
     { unimplemented!() }
 
     #[verifier::external_body]
+    pub fn contains_key(&self, key: &K) -> (r: bool)
+        ensures r == self@.contains_key(*key)
+    { unimplemented!() }
+
+    #[verifier::external_body]
+    pub fn remove(&mut self, key: &K) -> (r: Option<V>)
+        ensures final(self)@ == old(self)@.remove(*key),
+            r == (if old(self)@.contains_key(*key) { Some(old(self)@[*key]) } else { None })
+    { unimplemented!() }
+
+    #[verifier::external_body]
     pub fn get_mut(&mut self, key: &K) -> (r: Option<&mut V>)
         ensures
             !old(self)@.contains_key(*key) ==> r.is_none() && final(self)@ == old(self)@,
